@@ -8,6 +8,8 @@ def run(ctx):
     if not getattr(ctx, "replay", None):
         from .. import g72x as _g72x
         _g72x.pregen(ctx)
+        from .. import codectab as _codectab     # NMS / GSM tables by execution -> Generated/NmsTables.lean, GsmTables.lean
+        _codectab.pregen(ctx)
     run_common(ctx, "C05", modules_for("C05"), l1_scripts=400 if q else 4000, stride=3 if q else 1, nops=25 if q else 60)
     if not getattr(ctx, "replay", None):
         from .. import nms
@@ -18,3 +20,5 @@ def run(ctx):
         gsm.run(ctx, "C05", 80 if q else 800)
         from .. import adpcmenc       # IMA / MS ADPCM write contract: counts, frames after re-open, refused seeks leave no trace
         adpcmenc.run(ctx, "C05", 100 if q else 1000)
+        from .. import codecs20       # a table entry of the tree differs from the published one: look for an input that shows it
+        codecs20.search(ctx)
